@@ -31,6 +31,9 @@ fn rule_of(m: &ErrorMessage) -> Option<Rule> {
             B::MainIsMissing => Rule::MainIsMissing,
             B::MainIsNotAProcedure => Rule::MainIsNotAProcedure,
             B::MainMustNotHaveParameters => Rule::MainMustNotHaveParameters,
+            // (a message kind added to the code under test: no rule of the reference checker)
+            #[allow(unreachable_patterns)]
+            _ => return None,
         },
         ErrorMessage::SemanticErrorMessage(s) => match s {
             S::AssignmentHasDifferentTypes => Rule::AssignmentHasDifferentTypes,
@@ -50,6 +53,8 @@ fn rule_of(m: &ErrorMessage) -> Option<Rule> {
             S::NotAVariable(_) => Rule::NotAVariable,
             S::IndexingNonArray => Rule::IndexingNonArray,
             S::IndexingWithNonInteger => Rule::IndexingWithNonInteger,
+            #[allow(unreachable_patterns)]
+            _ => return None,
         },
         _ => return None,
     })
